@@ -90,6 +90,13 @@ pub fn explore(ex: &Ex) {
     map_tree(ex, "c18.claims", &pairs, depth, &|m, _d, l| {
         ex.decode(l, "c18.claims", Ty::Claims, Entry::Slice, m);
     });
+    {
+        let typed = vec![(u(1), t("iss")), (u(2), t("sub")), (u(3), t("aud")), (u(4), u(1)), (u(5), Item::float(1.5)), (u(6), i(-1)), (u(7), b(b"cti"))];
+        let faults = vec![(u(1), u(1)), (u(7), t("x")), (u(4), t("1")), (u(10), u(0)), (i(-70001), u(0)), (NULL, u(1))];
+        super::wide_maps(ex, "c18.wide", &|k| if k % 2 == 0 { (t(&format!("c{}", k)), u(k as u64)) } else { (i(-70000 - k as i128), b(b"v")) }, &typed, &faults, &|m, l| {
+            ex.decode(l, "c18.wide", Ty::Claims, Entry::Slice, m);
+        });
+    }
     for it in gen::kinds() {
         let mut l = Local::default();
         l.state(0);
